@@ -706,6 +706,9 @@ pub fn execute(case: &str) -> String {
     if case.starts_with("client ") {
         return execute_client(case);
     }
+    if case.starts_with("routed ") {
+        return execute_routed(case);
+    }
     let c = match parse(case) {
         Some(c) => c,
         None => return "bad-case".into(),
@@ -759,7 +762,7 @@ pub fn execute(case: &str) -> String {
     };
 
     // Box the closure so that both construction paths have one type.
-    let boxed: Box<dyn FnMut(tonic::Request<()>) -> Result<tonic::Request<()>, Status>> = Box::new(interceptor);
+    let boxed: Box<dyn FnMut(tonic::Request<()>) -> Result<tonic::Request<()>, Status> + Send> = Box::new(interceptor);
     let shared = SharedIcpt(Arc::new(Mutex::new(boxed)));
     let mut svc: InterceptedService<Recorder, SharedIcpt> = match c.via.as_str() {
         "layer" => InterceptorLayer::new(shared).layer(inner),
@@ -840,7 +843,7 @@ pub fn execute(case: &str) -> String {
 
 /// `Interceptor` is implemented for `FnMut`; the layer needs `Clone`, so share the closure.
 #[derive(Clone)]
-struct SharedIcpt(Arc<Mutex<Box<dyn FnMut(tonic::Request<()>) -> Result<tonic::Request<()>, Status>>>>);
+struct SharedIcpt(Arc<Mutex<Box<dyn FnMut(tonic::Request<()>) -> Result<tonic::Request<()>, Status> + Send>>>);
 impl tonic::service::Interceptor for SharedIcpt {
     fn call(&mut self, request: tonic::Request<()>) -> Result<tonic::Request<()>, Status> {
         (self.0.lock().unwrap())(request)
@@ -1040,7 +1043,8 @@ fn block_on<F: std::future::Future>(f: F) -> Option<F::Output> {
     None
 }
 
-fn make_interceptor(scripts: Vec<Script>, ilog: Log) -> SharedIcpt {
+fn make_interceptor(scripts: Vec<Script>, ilog: Log, known_only: bool) -> SharedIcpt {
+    let sx = move |x: &http::Extensions| if known_only { show_ext_known(x) } else { show_ext(x) };
     let mut count = 0usize;
     let interceptor = move |req: tonic::Request<()>| -> Result<tonic::Request<()>, Status> {
         let mine = count;
@@ -1048,7 +1052,7 @@ fn make_interceptor(scripts: Vec<Script>, ilog: Log) -> SharedIcpt {
         ilog.lock().unwrap().push(format!(
             "isaw {} {}",
             show_headers(&req.metadata().clone().into_headers()),
-            show_ext(req.extensions())
+            sx(req.extensions())
         ));
         let mut req = req;
         let mut rej = None;
@@ -1064,7 +1068,7 @@ fn make_interceptor(scripts: Vec<Script>, ilog: Log) -> SharedIcpt {
                 ilog.lock().unwrap().push(format!(
                     "iret {} {}",
                     show_headers(&req.metadata().clone().into_headers()),
-                    show_ext(req.extensions())
+                    sx(req.extensions())
                 ));
                 Ok(req)
             }
@@ -1075,7 +1079,7 @@ fn make_interceptor(scripts: Vec<Script>, ilog: Log) -> SharedIcpt {
             }
         }
     };
-    let boxed: Box<dyn FnMut(tonic::Request<()>) -> Result<tonic::Request<()>, Status>> = Box::new(interceptor);
+    let boxed: Box<dyn FnMut(tonic::Request<()>) -> Result<tonic::Request<()>, Status> + Send> = Box::new(interceptor);
     SharedIcpt(Arc::new(Mutex::new(boxed)))
 }
 
@@ -1088,7 +1092,7 @@ fn execute_client(case: &str) -> String {
     let calls = Arc::new(Mutex::new(0usize));
     let cur = Arc::new(Mutex::new(0usize));
     let resps = Arc::new(c.calls.iter().map(|k| (k.rhdrs.clone(), k.rext.clone())).collect::<Vec<_>>());
-    let shared = make_interceptor(c.scripts.clone(), log.clone());
+    let shared = make_interceptor(c.scripts.clone(), log.clone(), false);
     // one client per origin would reset the interceptor; keep one service and re-wrap the
     // (cheaply cloneable) handle: InterceptedService is Clone when both parts are.
     let mock = SharedMock(Arc::new(Mutex::new(ClientMock { log: log.clone(), calls: calls.clone(), resps, cur: cur.clone() })));
@@ -1160,6 +1164,191 @@ impl Service<http::Request<tonic::body::Body>> for SharedMock {
     fn call(&mut self, req: http::Request<tonic::body::Body>) -> Self::Future {
         self.0.lock().unwrap().call(req)
     }
+}
+
+// ---------------------------------------------------------------------------------------------
+// routed kind: Routes::new(InterceptedService<Named, F>) (+ a second, unrelated service), i.e. the
+// composition a generated `XServer::with_interceptor` value goes through in `Server::add_service`.
+// Same grammar as the plain kinds; the URI of each call is `path[?query]`, responses are `r` only.
+// observed per call: (`isaw..` (`iret..`|`irej..`) | `noicpt`) (`inner..`|`noinner`) [`other`] `out..`
+// (extension lists show only the harness's own marker types: axum adds private ones).
+
+const ROUTED_NAME: &str = "pkg.Svc";
+
+fn show_ext_known(x: &http::Extensions) -> String {
+    let full = show_ext(x);
+    let mut it = full.splitn(3, ' ');
+    let _total = it.next();
+    let k = it.next().unwrap_or("0");
+    let rest = it.next();
+    match rest {
+        Some(r) => format!("{} {} {}", k, k, r),
+        None => format!("{} {}", k, k),
+    }
+}
+
+#[derive(Clone)]
+struct NamedRecorder {
+    log: Log,
+    calls: Arc<Mutex<usize>>,
+    resps: Arc<Vec<Resp>>,
+    cur: Arc<Mutex<usize>>,
+}
+impl tonic::server::NamedService for NamedRecorder {
+    const NAME: &'static str = ROUTED_NAME;
+}
+impl Service<http::Request<tonic::body::Body>> for NamedRecorder {
+    type Response = http::Response<tonic::body::Body>;
+    type Error = std::convert::Infallible;
+    type Future = std::future::Ready<Result<Self::Response, Self::Error>>;
+    fn poll_ready(&mut self, _cx: &mut Context<'_>) -> Poll<Result<(), Self::Error>> {
+        Poll::Ready(Ok(()))
+    }
+    fn call(&mut self, req: http::Request<tonic::body::Body>) -> Self::Future {
+        *self.calls.lock().unwrap() += 1;
+        let (parts, body) = req.into_parts();
+        let line = format!(
+            "inner {} {} {} {} {} {}",
+            hex(parts.method.as_str().as_bytes()),
+            version_tok(parts.version),
+            hex(parts.uri.to_string().as_bytes()),
+            show_headers(&parts.headers),
+            show_ext_known(&parts.extensions),
+            drain(body)
+        );
+        self.log.lock().unwrap().push(line);
+        let idx = *self.cur.lock().unwrap();
+        let res = match &self.resps[idx] {
+            Resp::E(_) => http::Response::new(tonic::body::Body::empty()),
+            Resp::R { status, version, hdrs, ext, body } => {
+                let mut res = http::Response::new(tonic::body::Body::new(ScriptBody::new(body).expect("resp body")));
+                *res.status_mut() = http::StatusCode::from_u16(*status).expect("status");
+                *res.version_mut() = version_of(*version).expect("version");
+                *res.headers_mut() = mk_headers(hdrs).expect("resp headers");
+                *res.extensions_mut() = mk_ext(ext);
+                res
+            }
+        };
+        std::future::ready(Ok(res))
+    }
+}
+
+#[derive(Clone)]
+struct OtherSvc(Log);
+impl tonic::server::NamedService for OtherSvc {
+    const NAME: &'static str = "other.Svc";
+}
+impl Service<http::Request<tonic::body::Body>> for OtherSvc {
+    type Response = http::Response<tonic::body::Body>;
+    type Error = std::convert::Infallible;
+    type Future = std::future::Ready<Result<Self::Response, Self::Error>>;
+    fn poll_ready(&mut self, _cx: &mut Context<'_>) -> Poll<Result<(), Self::Error>> {
+        Poll::Ready(Ok(()))
+    }
+    fn call(&mut self, _req: http::Request<tonic::body::Body>) -> Self::Future {
+        self.0.lock().unwrap().push("other".into());
+        let mut res = http::Response::new(tonic::body::Body::empty());
+        *res.status_mut() = http::StatusCode::IM_A_TEAPOT;
+        std::future::ready(Ok(res))
+    }
+}
+
+fn execute_routed(case: &str) -> String {
+    let c = match parse(case) {
+        Some(c) => c,
+        None => return "bad-case".into(),
+    };
+    let log: Log = Arc::new(Mutex::new(Vec::new()));
+    let calls = Arc::new(Mutex::new(0usize));
+    let cur = Arc::new(Mutex::new(0usize));
+    let resps: Arc<Vec<Resp>> = Arc::new(c.calls.iter().map(|k| k.resp.clone()).collect());
+    let inner = NamedRecorder { log: log.clone(), calls: calls.clone(), resps, cur: cur.clone() };
+    let shared = make_interceptor(c.scripts.clone(), log.clone(), true);
+    let mut routes = match c.via.as_str() {
+        "layer" => tonic::service::Routes::new(InterceptorLayer::new(shared).layer(inner)).add_service(OtherSvc(log.clone())),
+        "builder" => {
+            let mut b = tonic::service::Routes::builder();
+            b.add_service(OtherSvc(log.clone()));
+            b.add_service(InterceptedService::new(inner, shared));
+            b.routes()
+        }
+        _ => tonic::service::Routes::new(InterceptedService::new(inner, shared)).add_service(OtherSvc(log.clone())),
+    };
+    for (idx, k) in c.calls.iter().enumerate() {
+        *cur.lock().unwrap() = idx;
+        let before = *calls.lock().unwrap();
+        let log_before = log.lock().unwrap().len();
+        let body = match ScriptBody::new(&k.body) {
+            Some(b) => b,
+            None => return "bad-case".into(),
+        };
+        let mut req = http::Request::new(body);
+        let (m, v, u, h) = match (
+            http::Method::from_bytes(&k.method).ok(),
+            version_of(k.version),
+            std::str::from_utf8(&k.uri).ok().and_then(|s| s.parse::<http::Uri>().ok()),
+            mk_headers(&k.hdrs),
+        ) {
+            (Some(m), Some(v), Some(u), Some(h)) => (m, v, u, h),
+            _ => return "bad-case".into(),
+        };
+        *req.method_mut() = m;
+        *req.version_mut() = v;
+        *req.uri_mut() = u;
+        *req.headers_mut() = h;
+        *req.extensions_mut() = mk_ext(&k.ext);
+        let mut cx = Context::from_waker(Waker::noop());
+        match Service::<http::Request<ScriptBody>>::poll_ready(&mut routes, &mut cx) {
+            Poll::Ready(Ok(())) => {}
+            _ => {
+                log.lock().unwrap().push("not-ready".into());
+                continue;
+            }
+        }
+        let out = block_on(routes.call(req));
+        let after = *calls.lock().unwrap();
+        {
+            let mut l = log.lock().unwrap();
+            let icpt_ran = l.len() > log_before && l[log_before].starts_with("isaw");
+            if !icpt_ran {
+                l.insert(log_before, "noicpt".into());
+            }
+            if after == before {
+                // keep the order: decision, then inner/noinner
+                let pos = l.len() - l[log_before..].iter().rev().take_while(|x| x.as_str() == "other").count();
+                l.insert(pos, "noinner".into());
+            } else if after != before + 1 {
+                l.push(format!("inner-calls {}", after - before));
+            }
+        }
+        let line = match out {
+            None => "out-pending".to_string(),
+            Some(Err(e)) => match e {},
+            Some(Ok(res)) => {
+                let (parts, body) = res.into_parts();
+                let eos = body.is_end_stream();
+                let sh = body.size_hint();
+                format!(
+                    "out {} {} {} {} {} {} {} {}",
+                    parts.status.as_u16(),
+                    version_tok(parts.version),
+                    show_headers(&parts.headers),
+                    show_ext_known(&parts.extensions),
+                    if eos { 1 } else { 0 },
+                    sh.lower(),
+                    opt_tok(sh.upper().map(|x| x as u128)),
+                    drain(body)
+                )
+            }
+        };
+        log.lock().unwrap().push(line);
+    }
+    let mut out = log.lock().unwrap().join(" ");
+    if !out.is_empty() {
+        out.push(' ');
+    }
+    out.push_str(&format!("calls {}", *calls.lock().unwrap()));
+    out
 }
 
 // ---------------------------------------------------------------------------------------------
@@ -1600,6 +1789,46 @@ fn gen_client_case(rng: &mut Rng) -> CCase {
     CCase { via: via(rng), scripts, calls }
 }
 
+const ROUTED_PATHS: [&str; 16] = [
+    "/pkg.Svc/M",
+    "/pkg.Svc/M",
+    "/pkg.Svc/Method",
+    "/pkg.Svc/a/b",
+    "/pkg.Svc//x",
+    "/pkg.Svc/M?x=1",
+    "/pkg.Svc/%2F",
+    "/",
+    "/pkg.Svc",
+    "/pkg.Svc/",
+    "/pkg.Svc2/M",
+    "/pkg.Sv/M",
+    "/pkg.svc/M",
+    "//pkg.Svc/M",
+    "/x/pkg.Svc/M",
+    "/other.Svc/M",
+];
+
+fn gen_routed_case(rng: &mut Rng) -> Case {
+    let ncalls = rng.range(1, 5);
+    let mut calls = Vec::new();
+    for _ in 0..ncalls {
+        let mut k = gen_call(rng);
+        k.method = rng.pick(&["POST", "POST", "GET", "OPTIONS", "PUT", "DELETE", "PATCH", "HEAD"]).as_bytes().to_vec();
+        k.uri = canon_uri(*rng.pick(&ROUTED_PATHS));
+        if let Resp::E(_) = k.resp {
+            k.resp = Resp::R { status: 200, version: 2, hdrs: H(vec![]), ext: vec![], body: gen_body(rng) };
+        }
+        calls.push(k);
+    }
+    let mut present: Vec<Vec<u8>> = calls.iter().flat_map(|c| present_names(&c.hdrs)).collect();
+    present.sort();
+    present.dedup();
+    let nscripts = rng.range(0, 3);
+    let scripts: Vec<Script> = (0..nscripts).map(|_| gen_script(rng, &present, 35)).collect();
+    let via = rng.pick(&["new", "layer", "builder"]).to_string();
+    Case { kind: "routed".into(), via, scripts, calls }
+}
+
 pub fn generate(tier: &str, rng: &mut Rng) -> Vec<String> {
     let thorough = tier == "thorough";
     let mut out: Vec<String> = Vec::new();
@@ -1849,6 +2078,11 @@ pub fn generate(tier: &str, rng: &mut Rng) -> Vec<String> {
     }
     // ---- client kind: Grpc<InterceptedService<Mock, F>>::server_streaming (prepare_request ->
     // interceptor -> transport; trailers-only answer / rejection decoded by the real client)
+    let n_routed = if thorough { 15_000 } else { 1_200 };
+    for _ in 0..n_routed {
+        let c = gen_routed_case(rng);
+        out.push(render(&c));
+    }
     let n_client = if thorough { 15_000 } else { 1_200 };
     for _ in 0..n_client {
         let c = gen_client_case(rng);
